@@ -211,6 +211,32 @@ fn scalars() -> Vec<Scalar> {
             }
         }
     }
+    // around the eigenvalues of the curve endomorphisms (phi on G1: z^2 - 1; psi on G2: z) and their
+    // negatives: an accumulator [m]P meets a table entry [j]P with m = lambda*j there, i.e. the two operands
+    // of an addition have equal or opposite y and different x
+    push([0xd20100000000fffe, 0x0000000000000000, 0x0000000000000000, 0x0000000000000000], "z-2");
+    push([0xd20100000000ffff, 0x0000000000000000, 0x0000000000000000, 0x0000000000000000], "z-1");
+    push([0xd201000000010000, 0x0000000000000000, 0x0000000000000000, 0x0000000000000000], "z+0");
+    push([0xd201000000010001, 0x0000000000000000, 0x0000000000000000, 0x0000000000000000], "z+1");
+    push([0xd201000000010002, 0x0000000000000000, 0x0000000000000000, 0x0000000000000000], "z+2");
+    push([0x2dfefffefffeffff, 0x53bda402fffe5bfe, 0x3339d80809a1d805, 0x73eda753299d7d48], "r-z-2");
+    push([0x2dfefffeffff0000, 0x53bda402fffe5bfe, 0x3339d80809a1d805, 0x73eda753299d7d48], "r-z-1");
+    push([0x2dfefffeffff0001, 0x53bda402fffe5bfe, 0x3339d80809a1d805, 0x73eda753299d7d48], "r-z+0");
+    push([0x2dfefffeffff0002, 0x53bda402fffe5bfe, 0x3339d80809a1d805, 0x73eda753299d7d48], "r-z+1");
+    push([0x2dfefffeffff0003, 0x53bda402fffe5bfe, 0x3339d80809a1d805, 0x73eda753299d7d48], "r-z+2");
+    push([0x00000000fffffffe, 0xac45a4010001a402, 0x0000000000000000, 0x0000000000000000], "z^2-2");
+    push([0x00000000ffffffff, 0xac45a4010001a402, 0x0000000000000000, 0x0000000000000000], "z^2-1");
+    push([0x0000000100000000, 0xac45a4010001a402, 0x0000000000000000, 0x0000000000000000], "z^2+0");
+    push([0x0000000100000001, 0xac45a4010001a402, 0x0000000000000000, 0x0000000000000000], "z^2+1");
+    push([0x0000000100000002, 0xac45a4010001a402, 0x0000000000000000, 0x0000000000000000], "z^2+2");
+    push([0xfffffffdffffffff, 0xa7780001fffcb7fc, 0x3339d80809a1d804, 0x73eda753299d7d48], "r-z^2-2");
+    push([0xfffffffe00000000, 0xa7780001fffcb7fc, 0x3339d80809a1d804, 0x73eda753299d7d48], "r-z^2-1");
+    push([0xfffffffe00000001, 0xa7780001fffcb7fc, 0x3339d80809a1d804, 0x73eda753299d7d48], "r-z^2+0");
+    push([0xfffffffe00000002, 0xa7780001fffcb7fc, 0x3339d80809a1d804, 0x73eda753299d7d48], "r-z^2+1");
+    push([0xfffffffe00000003, 0xa7780001fffcb7fc, 0x3339d80809a1d804, 0x73eda753299d7d48], "r-z^2+2");
+    push([0x0000002000000027, 0x88b4802000348040, 0x0000000000000015, 0x0000000000000000], "(z^2+1)*32+7");
+    push([0x0001000000000000, 0xec03000276030000, 0x8d51ccce760304d0, 0x0000000000000000], "z^3");
+    push([0xfffeffff00000001, 0x67baa40089fb5bfe, 0xa5e80b39939ed334, 0x73eda753299d7d47], "r-z^3");
     // extreme digits of every window: 2^w - 1 (digit 2^w - 1, the last table slot), 2^w + 1 (digit
     // -(2^w - 1)), 2^w - 3 (the slot before the last)
     for w in 2usize..=22 {
